@@ -173,3 +173,61 @@ for _prio, _lt in ((True, "sr_latch"), (False, "rs_latch")):
                 properties=("C05",), min_obligations=1, no_replay=True, note=f"{_lt} set {_so} reset {_ro}"))
 
 CONTRACTS += [create_placement, signal_name_cap]
+
+# =================================================================================================
+# Non-inlined latches: _create_sr_latch_placement / _create_rs_latch_placement build the rows over three
+# wire-filtered signals: S (set, red), R (reset, red), L (the latch's own output, green).
+# For boolean S, R (the remapped comparison results) the rows encode
+#     set priority:    on' = S>0 or (on and not R>0)          reset priority:   on' = not R>0 and (S>0 or on)
+# whatever the three signal names are — provided set and reset arrive under different names (precondition).
+# =================================================================================================
+def _rows_active3(conds, set_name, reset_name, out_name, S, R, L):
+    def red(name):
+        return ops.ite(name == set_name, S, 0) + ops.ite(name == reset_name, R, 0)
+
+    def green(name):
+        return ops.ite(name == out_name, L, 0)
+    groups, cur = [], []
+    for i, row in enumerate(conds):
+        wires, name = row.get("first_signal_wires"), row.get("first_signal")
+        if wires == {"red"}:
+            v = red(name)
+        elif wires == {"green"}:
+            v = green(name)
+        else:
+            return None
+        t = A.cmp(row["comparator"], v, row["second_constant"])
+        if i > 0 and row.get("compare_type", "or") == "or":
+            groups.append(cur)
+            cur = []
+        cur.append(t)
+    groups.append(cur)
+    return Or(*[And(*g) for g in groups])
+
+
+def _latch3_post(set_priority):
+    def post(a, res):
+        conds = CAP.get("conditions")
+        S, R, L = z3.Int("S"), z3.Int("R"), z3.Int("L")
+        act = _rows_active3(conds, a.set_signal_name, a.reset_signal_name, a.output_signal, S, R, L) if conds is not None else None
+        if act is None:
+            return False
+        on = L > 0
+        spec = Or(S > 0, And(on, Not(R > 0))) if set_priority else And(Not(R > 0), Or(S > 0, on))
+        dom = And(S >= 0, S <= 1, R >= 0, R <= 1, L >= 0)
+        return And(Implies(dom, ops.Iff(act, spec)), CAP["output_signal"] is a.output_signal, CAP["copy"] is False,
+                   CAP["output_value"] is a.output_constant)
+    return post
+
+
+for _name, _prio in (("_create_sr_latch_placement", True), ("_create_rs_latch_placement", False)):
+    CONTRACTS.append(Contract(
+        qualname=MB + _name,
+        params={"self": ty.TObj("MemoryBuilder", only=("MemoryBuilder",)), "latch_id": ty.Str, "op": ty.TOpaque("op"),
+                "set_signal_name": ty.Str, "reset_signal_name": ty.Str, "output_signal": ty.Str, "output_constant": ty.Int},
+        requires=[("set and reset arrive under different signal names", lambda a: a.set_signal_name != a.reset_signal_name)],
+        ensures=[(f"rows encode the {'set' if _prio else 'reset'}-priority latch over boolean set / reset signals", _latch3_post(_prio))],
+        uses={"LayoutPlan.create_and_add_placement": create_placement, "opaque.create_and_add_placement": create_placement,
+              "MemoryBuilder._make_latch_debug_info": "skip"},
+        dynamic_types={"self": {"layout_plan": ty.TObj("LayoutPlan", only=("LayoutPlan",))}},
+        properties=("C05",), min_obligations=1, no_replay=True, note="non-inlined path"))
